@@ -104,6 +104,11 @@ class Gen:
             if R.random() < 0.7:
                 return ['p', {}, gen_ptext(R), '', []]
             return N('item', T('itemID', 'nested-%d' % R.randint(1, 9)), T('itemSlug', 'nested'))
+        if depth >= 2 and R.random() < 0.08:
+            # a reference to a story / item that is, or may soon be, in the running order - mentioned, not a child
+            if R.random() < 0.6:
+                return T('storyID', self.sid_style % (self.sid_counter + R.randint(0, 3)))
+            return T('itemID', self.iid_style % max(1, self.iid_counter + R.randint(-2, 2)))
         if depth >= 2 and R.random() < 0.10:
             # names that mean something at the top level must mean nothing down here
             tag = R.choice(['roCreate', 'roDelete', 'mosromgrmeta', 'roStorySend', 'roElementAction', 'roReplace', 'messageID', 'storyBody'])
